@@ -388,6 +388,11 @@ def report(rep, case, future, i, j, aspect, detail, what, cands, obs=None):
         elif any(fd["eq"] is not None for st in alone_others + [victim] for fd in st["fields"]) and \
                 aspect in ("default", "required", "behaviour", "definition"):
             key = K_DEFAULT
+    if key is None and aspect == "behaviour" and not case.get("factory") and not instance_alias(s0) and \
+            any(n[0] in P.UNIQUE_HEADS for n in P.walk(s0)):
+        # the alias is a typing / PEP 585 object that CONTAINS a Field instance (frozenset[Enum(...)]): every conversion
+        # wraps that one instance, whose `_name` is then rewritten by whichever collection validated last
+        key = K_NAMES
     if key is None and case.get("factory"):
         key = "C13/factory/%s/%s/%suse=%s/call=%d:%s,earlier=%s" % (
             what, aspect, "future," if future else "", case["use"], i, victim["kind"],
